@@ -20,6 +20,8 @@ def filter : FilterForm := .requestedSubsetOfNode
 def asyncFilter : FilterForm := .requestedSubsetOfNode
 def fanOutOverTargets : Bool := true
 def asyncFanOutOverTargets : Bool := true
+def invalidateUnconditional : Bool := true
+def asyncInvalidateUnconditional : Bool := true
 def maxAttemptsValidated : Bool := true
 def asyncMaxAttemptsValidated : Bool := true
 def namesDistinctAtConstruction : Bool := true
